@@ -61,6 +61,11 @@ def run_one(run: Run, stream, xml, seed_ops, length, rows):
             ops.append(op)
             if world.dump(mirror) != mirror.live():
                 return
+            # the paths of the held node objects are also read in the middle of the history (a path that was read
+            # before an edit must not influence the one that is read after it)
+            for obj in list(world.objs.values()):
+                if isinstance(obj, TagNode):
+                    obj.location_path  # noqa: B018
             for nid in list(world.objs):
                 if nid not in mirror.all_ids():
                     world.forget(nid)
